@@ -68,6 +68,11 @@ func Verify(root *etree.Element, sigpath string, extraCerts []*x509.Certificate)
 		return nil, errors.New("xmldsig: multiple signatures found")
 	}
 	sigEl := sigs[0]
+	// only SignedInfo is covered by the signature value: a second one would lend
+	// its (unsigned) reference to the parsed signature below
+	if len(sigEl.SelectElements("SignedInfo")) != 1 {
+		return nil, errors.New("xmldsig: signature must have exactly one SignedInfo")
+	}
 	// parse signature tree
 	sigbytes, err := SerializeCanonical(sigEl)
 	if err != nil {
